@@ -24,6 +24,7 @@ pub(crate) fn try_match_point_job(
     activity: &FormatActivity,
     job_index: &JobIndex,
     coord_index: &CoordIndex,
+    is_free_fn: &dyn Fn(&Job) -> bool,
 ) -> Result<Option<JobInfo>, GenericError> {
     let ctx = ActivityContext {
         route_start_time: get_route_start_time(tour)?,
@@ -74,6 +75,8 @@ pub(crate) fn try_match_point_job(
                 .map(|job_id| job_index.get(&job_id))
                 .take_while(|job| job.is_some())
                 .filter_map(|job| job.and_then(|job| job.as_single().map(|s| (job.clone(), s.clone()))))
+                // NOTE: equal breaks/reloads/recharges of one shift differ only by their index: take the first free one
+                .filter(|(job, _)| is_free_fn(job))
                 .filter_map(|(job, single)| {
                     match_place(&single, false, &ctx).map(|place| JobInfo(job, single, place, ctx.time.clone()))
                 })
